@@ -76,7 +76,7 @@ def judge(ctx, src, its):
         records.append(rec)
         ctx.evaluations += len(rec["routes"])
     ctx.log("Act T: TLC judges %d records (%d observations)" % (len(records), ctx.evaluations))
-    res = tlc.validate_traces("AffTrace", "AffTrace.cfg", records, chunk=100, parallel=14)
+    res = tlc.validate_traces("AffTrace", "AffTrace.cfg", records, chunk=100, parallel=14, canary_fields=["mats"])
     ctx.add_tv(res)
     classify(ctx, by_id, res["fails"])
     ctx.nontrivial = {it["id"] for it in its if it["c"]["w"] or it["c"]["tau2"] > 1 or it["c"]["pen"]}
